@@ -33,6 +33,7 @@ package blobstore
 //@   requires sh.store != nil
 //@   requires queued-handles-are-dirty: sh.handlesToWriteIndex >= 0 ==> sh.writtenVersion != sh.currentVersion
 //@   at call delete#1 assert only-unqueued-handles-are-dropped: sh.handlesToWriteIndex < 0
+//@   ghostset reconsidered[sh] = old(reconsidered(sh)) + 1
 //@   ensures in-use-handles-untouched: old(sh.useCount) != 0 ==> unchanged()
 //@   ensures dirty-idle-handle-is-queued: old(sh.useCount) == 0 && sh.writtenVersion != sh.currentVersion ==> sh.handlesToWriteIndex >= 0
 //@   ensures versions-untouched: sh.writtenVersion == old(sh.writtenVersion) && sh.currentVersion == old(sh.currentVersion)
@@ -41,6 +42,17 @@ package blobstore
 // by Release); a failed Get owns none. uses(h): uses of handle h this call has
 // taken (increaseUseCount) minus given back (decreaseUseCount); a handle
 // created by the call starts with the caller's one use.
+// A handle taken off the write queue is reconsidered for writing when its
+// write-back ends, whether the write succeeded or failed: otherwise a failed
+// write silently drops the statistics. reconsidered(h): calls of
+// removeOrQueueForWriteLocked on h.
+//@ ghost map reconsidered(ref) int zero
+//@ func (*blobAccessMutableProtoStore[T, TProto]).Get$2
+//@   props C07
+//@   trustcall removeOrQueueForWriteLocked -- the handle was taken off the write queue by the enclosing call: it belongs to a store and is not queued
+//@   ensures written-or-not-the-handle-is-reconsidered-for-writing: reconsidered(handleToWrite.handle) == 1
+//@   ensures only-a-successful-write-is-recorded-as-written: r0 != nil ==> handleToWrite.handle.writtenVersion == old(handleToWrite.handle.writtenVersion)
+
 //@ monitor blobAccessMutableProtoStore.lock
 //@   props C07
 //@   guards handles handlesToWrite
